@@ -2,6 +2,7 @@
 package c03
 
 import (
+	"fmt"
 	"testing"
 
 	"pgregory.net/rapid"
@@ -19,6 +20,17 @@ func gen(t *rapid.T) peng.Case {
 		// one stream write fails under a call whose context is alive; the requests queued behind it
 		// and the calls issued later go over the re-created stream, in order
 		c.Mgrs[0].FailSendAt = []int{rapid.IntRange(1, 60).Draw(t, "failSendAt")}
+	}
+	if len(c.Mgrs[0].FailSendAt) == 0 && rapid.IntRange(0, 3).Draw(t, "cut") == 0 {
+		// the connections to a server break underneath it once or twice (it keeps listening): what was
+		// in flight is lost, nothing is handled twice, and what is handled keeps its order
+		k := rapid.IntRange(1, 2).Draw(t, "ncut")
+		for i := 0; i < k; i++ {
+			op := peng.Op{Kind: "cut", Thread: rapid.IntRange(0, c.Threads-1).Draw(t, fmt.Sprintf("cutThread%d", i)),
+				Call: scen.CallSpec{Node: rapid.IntRange(0, c.N-1).Draw(t, fmt.Sprintf("cutNode%d", i))}}
+			at := rapid.IntRange(0, len(c.Ops)).Draw(t, fmt.Sprintf("cutAt%d", i))
+			c.Ops = append(c.Ops[:at], append([]peng.Op{op}, c.Ops[at:]...)...)
+		}
 	}
 	return c
 }
@@ -40,7 +52,7 @@ func run(c peng.Case) vt.Verdict {
 func TestProp(t *testing.T) {
 	vt.Main(t, vt.Spec[peng.Case]{
 		ID:           "C03",
-		Rule:         "rapid-generated client programs: 5-40 operations drawn from all 20 call kinds (RPC, quorum/async/correctable/stream calls on sub-configurations, multicast and unicast with and without send-waiting, per-node variants that skip nodes) issued by 1-4 threads separated by barriers, quorum sizes below the configuration size (stragglers stay queued), futures collected late or never, send buffer 0/1/2/8, receive buffer 0/4, per (server, call) handler latency 0-3 ms or a hold of 1-12 ms without Release, in a third of the behaviours a handler that calls Release at once and keeps running for its latency (and releases again when it returns), no cancellation, and no failure except, in a quarter of the programs, one injected failure of a single stream write (client stream interceptor; the complete-delivery clause is then not applied); oracle: per server and connection the handler start order never inverts the program's happens-before order (thread order + barriers), no handler starts twice, every targeted server handles every call; non-trivial = at least 3 call kinds, or a straggler still pending when a later call was issued (measured), or a send buffer > 0",
+		Rule:         "rapid-generated client programs: 5-40 operations drawn from all 20 call kinds (RPC, quorum/async/correctable/stream calls on sub-configurations, multicast and unicast with and without send-waiting, per-node variants that skip nodes) issued by 1-4 threads separated by barriers, quorum sizes below the configuration size (stragglers stay queued), futures collected late or never, send buffer 0/1/2/8, receive buffer 0/4, per (server, call) handler latency 0-3 ms or a hold of 1-12 ms without Release, in a third of the behaviours a handler that calls Release at once and keeps running for its latency (and releases again when it returns), no cancellation, and no failure except, in a quarter of the programs, one injected failure of a single stream write (client stream interceptor) or one or two cuts of the connections to a server that keeps listening (the complete-delivery clause is then not applied); oracle: per server and connection the handler start order never inverts the program's happens-before order (thread order + barriers), no handler starts twice, every targeted server handles every call; non-trivial = at least 3 call kinds, or a straggler still pending when a later call was issued (measured), or a send buffer > 0",
 		Gen:          gen,
 		Run:          run,
 		TrackCurrent: true,
